@@ -63,7 +63,7 @@ func runWorker(r *ev.Run, col *sqlgen.Collector) {
 	}
 	corpus := accepted
 	phases := []phase{
-		{"idents", 1, func(exp func() bool) {
+		{"idents", 3, func(exp func() bool) {
 			extra := runIdents(exp, r.Thorough(), col)
 			corpus = append(append([]string{}, accepted...), extra...)
 			sort.Strings(corpus)
@@ -121,10 +121,7 @@ func replay(col *sqlgen.Collector, c caseT) {
 	case "observers":
 		observersReplay(col, c)
 	case "idents":
-		out, t := roundTrip(col, c)
-		if t != nil && out == oOK {
-			out = identBytesCheck(col, c, t)
-		}
+		out, _, _, _ := identsOracle(col, c, true)
 		fmt.Printf("replay idents: %q outcome %s\n", c.SQL, out)
 	default:
 		out, t := roundTrip(col, c)
